@@ -192,6 +192,16 @@ def jobs(pid, tier, seed):
     for k in range(n_jobs):
         js.append(("prop_pool", "job_random",
                    {"pid": pid, "seed": base + k, "count": per_job, "max_len": max_len}))
+    # a few long runs with large numbers (see poolgen.LONG_PROFILE), merged with the property's profile
+    import poolgen as _pg
+    long_prof = dict(PROFILES.get(pid, {}))
+    long_prof.update({k: v for k, v in _pg.LONG_PROFILE.items() if k not in ("flush", "cancel") or k not in long_prof})
+    if pid == "C14":
+        long_prof["kinds"] = ["simple"]
+    for k in range(4 if tier == "quick" else 32):
+        js.append(("prop_pool", "job_random",
+                   {"pid": pid, "seed": base + 9000 + k, "count": 4 if tier == "quick" else 8,
+                    "max_len": 700, "profile": long_prof}))
     for k in range(n_sweep):
         js.append(("prop_pool", "job_sweep",
                    {"pid": pid, "seed": base + 7000 + k, "count": 1 if tier == "quick" else 3,
